@@ -6,7 +6,7 @@
    pkg/storage/storage.go breaks their proof obligations.  See notes/SKEL.md. *)
 From Coq Require Import List String Bool Arith.
 From Helm Require Import Engine.Types Engine.Eff Engine.Ops Engine.Skeleton Engine.SkeletonExpected
-                         Engine.SkeletonModel Engine.SkeletonProofs Engine.SkeletonProofsAll
+                         Engine.SkeletonModel Engine.SkeletonProofs Engine.SkeletonProofsAll Engine.SkeletonCover
                          Gen.ActionSkeleton.
 Import ListNotations.
 Local Open Scope string_scope.
@@ -56,7 +56,35 @@ Theorem model_follows_skeleton_all_flags :
 Proof. exact model_follows_skeleton_all_flags_lemma. Qed.
 Print Assumptions model_follows_skeleton_all_flags.
 
-(* 3. The checker is not vacuous: the model's plain install is the trace below; with the
+(* 3. Conversely, the skeleton has no call the model never performs, outside a stated list.
+      A call site = an effect, a call of a tracked function or a run of a nested action,
+      named (function, index in preorder).  Every call site of the expected skeleton is
+      either in [needed] -- with a run of the scenario space (wit_run w: operation, option
+      assignment, ledger, adopt, failing positions) that is NOT a path any more once that one
+      site is deleted (del_follows st sf = follows with the table [table_del (fst st) (snd st)
+      expected]) -- or in [not_needed], each with its reason (outside the model: crds/,
+      CreateNamespace, Recreate, WaitForJobs, pod logs, context cancellation; or an
+      alternative of the same kind on a sibling path).  92 needed, 37 not, 129 in all. *)
+Theorem skeleton_calls_needed :
+  forall (st : site) (w : wit), In (st, w) needed ->
+    exists s fails,
+      wit_run w = Some (s, fails) /\
+      In (sc_fl s) (flag_space (sc_op s)) /\ In (sc_led s) ledgers /\
+      del_follows st (s, fails) = false.
+Proof. exact skeleton_sites_needed_lemma. Qed.
+Print Assumptions skeleton_calls_needed.
+
+Theorem skeleton_calls_covered :
+  forall st, In st (all_sites expected) -> In st (map fst needed) \/ In st (map fst not_needed).
+Proof. exact skeleton_sites_covered_lemma. Qed.
+Print Assumptions skeleton_calls_covered.
+
+Example skeleton_call_counts :
+  List.length (all_sites expected) = 129 /\ List.length needed = 92 /\ List.length not_needed = 37.
+Proof. exact site_counts. Qed.
+Print Assumptions skeleton_call_counts.
+
+(* 4. The checker is not vacuous: the model's plain install is the trace below; with the
       storage create moved behind the cluster create, or dropped, it is no path. *)
 Example skeleton_install_trace :
   model_trace (mkScen OInstall (mkFlags false false false false 0 true false false false 0) [] false) []
@@ -77,3 +105,10 @@ Example skeleton_rejects_dropped :
            (env_of (mkFlags false false false false 0 true false false false 0)) = false.
 Proof. exact checker_rejects_dropped. Qed.
 Print Assumptions skeleton_rejects_dropped.
+
+Example skeleton_rejects_unhandled_failure :
+  raccepts rexpected [DHistory; KcExisting false; DCreate; KcCreate; KcWait]
+           FUEL (index_of "Install.RunWithContext" expected)
+           (env_of (mkFlags false false false false 0 true false false false 0)) = false.
+Proof. exact checker_rejects_unhandled. Qed.
+Print Assumptions skeleton_rejects_unhandled_failure.
